@@ -211,7 +211,7 @@ def linear_equivalence(divisor1: CFDivisor, divisor2: CFDivisor) -> bool:
         True
     """
     # Condition 1: Divisors must be on the same graph (if not, return False)
-    if divisor1.graph != divisor2.graph:
+    if divisor1.graph is not divisor2.graph and divisor1.graph.to_dict() != divisor2.graph.to_dict():
         return False
 
     graph = divisor1.graph  # Graph for EWD
